@@ -156,6 +156,7 @@ PARSE_MAPPINGS = [
 # quoted values may contain blanks (runs of them): they come back unchanged
 PARSE_MAPPINGS_QUOTED = [
     [("k1", ["w1  w2"]), ("k2", ["v3 w3"])],
+    [("k1", ["w1=w2"]), ("k2", ["v3"])],
 ]
 
 
@@ -168,12 +169,12 @@ def template_astr(cfg, mapping_):
             parts.append(t)
         elif t[0] == "enc":
             parts.append(Sym("enc(%s)" % t[1], "str", True))
-        elif " " in t[1]:
-            # a value with blanks inside (legitimate inside quotes): holes joined by the literal blanks
+        elif " " in t[1] or "=" in t[1]:
+            # a value with blanks or '=' inside (legitimate inside quotes): holes joined by the literal characters
             import re as _re
-            for piece in _re.split(r"( +)", t[1]):
+            for piece in _re.split(r"([ =]+)", t[1]):
                 if piece:
-                    parts.append(piece if piece.isspace() else Sym(piece, "str", True))
+                    parts.append(piece if not piece.strip(" =") else Sym(piece, "str", True))
         else:
             parts.append(Sym(t[1], "str", True))
     return AStr(parts)
@@ -181,10 +182,10 @@ def template_astr(cfg, mapping_):
 
 def value_name(v):
     """How names_of renders the value named v."""
-    if " " not in v:
+    if " " not in v and "=" not in v:
         return v
     import re as _re
-    return "".join(p if p.isspace() else "\u27e6%s\u27e7" % p for p in _re.split(r"( +)", v) if p)
+    return "".join(p if not p.strip(" =") else "\u27e6%s\u27e7" % p for p in _re.split(r"([ =]+)", v) if p)
 
 
 def _unquote_summary(interp, pos, kw, node):
